@@ -211,6 +211,15 @@ def deep_probe(v):
             v[i]
         if L <= 64:
             list(v)
+        if L <= 6:
+            # one-step futures: removing over any range must work and leave a consistent value (a doubled or
+            # dangling marker shows here before it shows anywhere else)
+            for (s_, e_) in explore.ranges(L):
+                w = v.copy()
+                w.remove_formatting(None, s_, e_)
+                e2 = model.self_check(w)
+                if e2:
+                    return 'after remove_formatting(None, %d, %d): %s' % (s_, e_, e2)
         v.find_settings(AnsiSetting('31'))
         v.find_settings(AnsiSetting('31'), reverse=True)
         AnsiString.join('x', v, v)
